@@ -333,6 +333,11 @@ def run(repo, res, tier):
         if kind in ("decimal", "float"):
             ok = fk == "positional" or (fk in ("str",) and cx.source_is_int(node, vexpr))
             res.check("X-NUM", "%s %s (%s) <- %s" % (path, what, tname, norm(vexpr)[:70]), ok, mod, origin, "%s %s written with %s" % (path, what, norm(vexpr)[:90]), "a %s value is written with str()/repr()-style formatting: small or large magnitudes print in exponent notation (e.g. 2e-05), which the schema type %s rejects" % (kind, tname), qualname=qn)
+        elif base == "boolean" and (tname or "").startswith("xs:"):
+            # xs:boolean admits true / false / 1 / 0: the text of a Python bool (`True`) is not among them
+            t = norm(vexpr)
+            ok = ".lower()" in t or (isinstance(vexpr, ast.Constant) and str(vexpr.value) in ("true", "false", "1", "0")) or fk == "raw" and not (isinstance(vexpr, ast.Call) and call_name(vexpr) in ("str", "repr"))
+            res.check("X-ENUM", "%s %s (xs:boolean) <- %s" % (path, what, t[:70]), ok, mod, origin, "%s %s written with %s" % (path, what, t[:90]), "a truth value is written as Python prints it (`True` / `False`): xs:boolean only admits true, false, 1 and 0", qualname=qn)
         elif kind == "int":
             # an integer-typed element: the decimal formatter writes a point (`2.0`), which the integer types reject
             res.check("X-NUM", "%s %s (%s) <- %s" % (path, what, tname, norm(vexpr)[:70]), fk != "positional", mod, origin, "%s %s written with %s" % (path, what, norm(vexpr)[:90]), "an integer-typed value (%s) is written with the decimal formatter: the text has a decimal point, which the schema type rejects (and the reader's int() as well)" % tname, qualname=qn)
